@@ -8,7 +8,7 @@ import os
 import z3
 
 from . import xr, REPO
-from .values import (V, VInt, VBool, VFloat, VNone, VStr, VTuple, VRef, VFunc, VModule, VDType, VOpaque,
+from .values import (V, VInt, VBool, VFloat, VNone, VOpt, VStr, VTuple, VRef, VFunc, VModule, VDType, VOpaque,
                      ArrData, const_array, fresh_array, fresh_scalar, fresh_name, arr_sort, ELEM_SORT)
 from .contract import Contract, LoopSpec, REGISTRY
 
@@ -192,6 +192,7 @@ class State:
         self.old_heap = None     # heap at function entry
         self.entry_env = None
         self.ghost_old = {}      # for loop-local old() snapshots
+        self.loop_pre = {}       # loop ordinal -> state in which that loop was entered (for at_entry)
 
     def fork(self):
         s = State()
@@ -205,6 +206,7 @@ class State:
         s.old_heap = self.old_heap
         s.entry_env = self.entry_env
         s.ghost_old = dict(self.ghost_old)
+        s.loop_pre = dict(self.loop_pre)
         return s
 
     def hyps(self):
@@ -237,6 +239,8 @@ def to_bool(v, node=None):
         return z3.Not(z3.And(xr.is_fin(v.t), xr.val(v.t) == 0))
     if isinstance(v, VNone):
         return z3.BoolVal(False)
+    if isinstance(v, VOpt):
+        return z3.And(z3.Not(v.isnone), to_bool(v.inner, node))
     raise Unsupported("truth value of %r" % (v,), node)
 
 
@@ -286,6 +290,27 @@ def merge_values(c, a, b):
         return VTuple(items)
     if isinstance(a, VNone) and isinstance(b, VNone):
         return a
+    if isinstance(a, (VNone, VOpt)) or isinstance(b, (VNone, VOpt)):
+        # None on one side, a number on the other: an optional number
+        def lift(x, other):
+            if isinstance(x, VOpt):
+                return x
+            if isinstance(x, VNone):
+                o = other.inner if isinstance(other, VOpt) else other
+                if not is_num(o):
+                    return None
+                z = VFloat(xr.fin(z3.RealVal(0))) if isinstance(o, VFloat) else (VBool(False) if isinstance(o, VBool) else VInt(0))
+                return VOpt(z3.BoolVal(True), z)
+            if is_num(x):
+                return VOpt(z3.BoolVal(False), x)
+            return None
+        la, lb = lift(a, b), lift(b, a)
+        if la is None or lb is None:
+            return None
+        inner = merge_values(c, la.inner, lb.inner)
+        if inner is None:
+            return None
+        return VOpt(z3.If(c, la.isnone, lb.isnone), inner)
     if isinstance(a, VStr) and isinstance(b, VStr) and a.s == b.s:
         return a
     if isinstance(a, (VFunc, VModule, VDType)) and type(a) is type(b) and a.name == b.name:
@@ -644,6 +669,10 @@ class Executor:
             else:
                 r = z3.And(*[self.cmp(ast.Eq(), x, y, node) for x, y in zip(a.items, b.items)]) if a.items else z3.BoolVal(True)
             return r if isinstance(op, ast.Eq) else z3.Not(r)
+        if isinstance(op, (ast.Is, ast.IsNot, ast.Eq, ast.NotEq)) and (
+                (isinstance(a, VOpt) and isinstance(b, VNone)) or (isinstance(a, VNone) and isinstance(b, VOpt))):
+            r = a.isnone if isinstance(a, VOpt) else b.isnone
+            return r if isinstance(op, (ast.Is, ast.Eq)) else z3.Not(r)
         if isinstance(op, (ast.Is, ast.IsNot)):
             if isinstance(a, VNone) or isinstance(b, VNone):
                 r = z3.BoolVal(isinstance(a, VNone) and isinstance(b, VNone))
@@ -658,6 +687,8 @@ class Executor:
                 return r
             if isinstance(op, ast.NotEq):
                 return z3.Not(r)
+            if isinstance(op, (ast.Lt, ast.LtE, ast.Gt, ast.GtE)):
+                return z3.BoolVal(False)        # in code this is a TypeError (ev_Compare); in specs it sits behind `x is None or`
         if isinstance(a, VOpaque) and isinstance(b, VOpaque):
             if isinstance(op, ast.Eq):
                 return a.t == b.t
@@ -686,6 +717,17 @@ class Executor:
             return x != y
         raise Unsupported("comparison op", node)
 
+    def unopt(self, v, st, node, spec, other=None):
+        """use of an optional number as a number: TypeError when it is None (comparisons with None itself excepted)"""
+        if isinstance(v, VNone) and self.suppress and other is None:
+            # probe pass over a branch that is infeasible with the pre-loop value: any number will do
+            return fresh_scalar("probe_none", "f")
+        if not isinstance(v, VOpt) or isinstance(other, VNone):
+            return v
+        if not spec:
+            self.raise_if(st, v.isnone, "TypeError", node)
+        return v.inner
+
     def ev_Compare(self, n, st, spec):
         left = self.ev(n.left, st, spec)
         if len(n.ops) == 1 and not isinstance(n.ops[0], (ast.In, ast.NotIn, ast.Is, ast.IsNot)):
@@ -703,7 +745,10 @@ class Executor:
                     r = r if isinstance(op, ast.In) else z3.Not(r)
                 else:
                     right = self.ev(rn, st, spec)
-                    r = self.cmp(op, left, right, n)
+                    if not spec and isinstance(op, (ast.Lt, ast.LtE, ast.Gt, ast.GtE)) and \
+                            (isinstance(left, VNone) or isinstance(right, VNone)):
+                        self.raise_if(st, z3.BoolVal(True), "TypeError", n)
+                    r = self.cmp(op, self.unopt(left, st, n, spec, right), self.unopt(right, st, n, spec, left), n)
                 res.append(r)
                 st.guards.append(r)
                 pushed += 1
@@ -728,6 +773,7 @@ class Executor:
         raise Unsupported("in", node)
 
     def arith(self, op, a, b, st, node, spec):
+        a, b = self.unopt(a, st, node, spec), self.unopt(b, st, node, spec)
         if isinstance(a, VRef) or isinstance(b, VRef):
             return self.array_arith(op, a, b, st, node, spec)
         if isinstance(a, VTuple) and isinstance(b, VTuple) and isinstance(op, ast.Add):
@@ -1082,6 +1128,27 @@ class Executor:
             return self.quantifier(n.func.id, n.args[0], st, spec)
         if isinstance(n.func, ast.Name) and n.func.id == "old" and spec:
             return self.ev_old(n.args[0], st)
+        if isinstance(n.func, ast.Name) and n.func.id == "at_entry" and spec:
+            # at_entry(k, e): e evaluated in the state in which loop #k was (most recently) entered
+            k = n.args[0].value
+            pre = st.loop_pre.get(k)
+            if pre is None:
+                raise Unsupported("at_entry(%d, ...) outside loop #%d" % (k, k), n)
+            v = pre.fork()
+            v.pc = st.pc
+            v.guards = st.guards
+            for nm, val in st.env.items():
+                if nm not in v.env and isinstance(val, (VInt, VBool, VFloat)):
+                    v.env[nm] = val
+            return self.ev(n.args[1], v, spec=True)
+        if isinstance(n.func, ast.Name) and n.func.id == "wpos" and spec:
+            # wpos(w, i): position of index i in w = np.where(c)[0] (defined when c[i])
+            w = self.ev(n.args[0], st, True)
+            i = to_int(self.ev(n.args[1], st, True), n)
+            pos = getattr(self, "where_pos", {}).get(getattr(w, "cell", None))
+            if pos is None:
+                raise Unsupported("wpos of something that is not a np.where result", n)
+            return VInt(pos(i))
         if isinstance(n.func, ast.Name) and n.func.id == "array2" and spec and isinstance(n.args[0], ast.Lambda):
             lam = n.args[0]
             names = [a.arg for a in lam.args.args]
@@ -1581,6 +1648,33 @@ class Executor:
             if fn in ("isinf",) and not isinstance(args[0], VRef):
                 x = to_float(args[0], n)
                 return VBool(z3.Or(xr.is_pinf(x), xr.is_ninf(x)))
+            if fn in ("fabs", "abs", "absolute") and isinstance(args[0], VRef):
+                et = st.heap[args[0].cell].et
+                if et == "i":
+                    return self.amap(st, lambda x: VInt(z3.If(x.t >= 0, x.t, -x.t)), [args[0]], "i", n, spec)
+                return self.amap(st, lambda x: VFloat(xr.fabs(to_float(x))), [args[0]], "f", n, spec)
+            if fn == "where" and len(args) == 1 and not kwargs and isinstance(args[0], VRef) and st.heap[args[0].cell].ndim == 1 \
+                    and st.heap[args[0].cell].et == "b":
+                # assumed NumPy contract: np.where(c) of a 1-D boolean array is (w,), w the strictly increasing array of exactly
+                # the indices at which c is true
+                a = st.heap[args[0].cell]
+                ln = z3.Int(fresh_name("where.len"))
+                w = fresh_array("where", "i", 1)
+                pos = z3.Function(fresh_name("where.pos"), z3.IntSort(), z3.IntSort())
+                i, j = z3.Int(fresh_name("wi")), z3.Int(fresh_name("wj"))
+                wi, wj = z3.Select(w, i), z3.Select(w, j)
+                st.assume(z3.And(ln >= 0, ln <= a.shape[0]))
+                st.assume(z3.ForAll([i], z3.Implies(z3.And(i >= 0, i < ln), z3.And(wi >= 0, wi < a.shape[0], a.select([wi]))),
+                                    patterns=[wi]))
+                st.assume(z3.ForAll([i, j], z3.Implies(z3.And(0 <= i, i < j, j < ln), wi < wj), patterns=[z3.MultiPattern(wi, wj)]))
+                st.assume(z3.ForAll([i], z3.Implies(z3.And(i >= 0, i < a.shape[0], a.select([i])),
+                                                    z3.And(pos(i) >= 0, pos(i) < ln, z3.Select(w, pos(i)) == i)), patterns=[pos(i)]))
+                self.where_pos = getattr(self, "where_pos", {})
+                cell = new_cell("where")
+                st.heap[cell] = ArrData(w, [ln], "i", frozenset(), True)
+                self.where_pos[cell] = pos
+                self.notes.append("assumed: np.where(c)[0] lists exactly the true indices of a 1-D boolean array, increasing")
+                return VTuple([VRef(cell)])
             if fn in ("fabs", "abs", "absolute") and not isinstance(args[0], VRef):
                 return self.call_builtin("abs", args, kwargs, st, n, spec)
             if fn == "radians":
@@ -1604,6 +1698,8 @@ class Executor:
                     fill = self.unwrap_elem(tmp, fv, n)
                 return self.alloc(st, a.shape, et, fill, base=fn)
             if fn in ("zeros", "empty", "ones", "full"):
+                if not args and "shape" in kwargs:
+                    args = [kwargs["shape"]]
                 shape = self.shape_arg(args[0], st, n)
                 if not spec:
                     for k, s in enumerate(shape):
@@ -1982,6 +2078,7 @@ class Executor:
             ast.fix_missing_locations(flat)
             return self.store(flat, v, st, node, spec)
         base = self.ev(target.value, st, spec)
+        v = self.unopt(v, st, node, spec)
         if not isinstance(base, VRef):
             raise Unsupported("store into %r" % (base,), node)
         a = st.heap[base.cell]
@@ -2351,7 +2448,15 @@ class Executor:
                 kind = self.c.types[nm]
                 st.env[nm] = fresh_scalar(nm, {"int": "i", "float": "f", "bool": "b"}[kind])
                 continue
-            if any(isinstance(c, VFloat) for c in cands) and all(is_num(c) for c in cands):
+            if any(isinstance(c, (VNone, VOpt)) for c in cands):
+                inner = [c.inner if isinstance(c, VOpt) else c for c in cands if not isinstance(c, VNone)]
+                if not inner:
+                    continue        # None throughout
+                if not all(is_num(c) for c in inner):
+                    raise Unsupported("loop-assigned %s is None or a non-number" % nm, s)
+                kind = "f" if any(isinstance(c, VFloat) for c in inner) else ("b" if all(isinstance(c, VBool) for c in inner) else "i")
+                st.env[nm] = VOpt(z3.Bool(fresh_name(nm + ".isnone")), fresh_scalar(nm, kind))
+            elif any(isinstance(c, VFloat) for c in cands) and all(is_num(c) for c in cands):
                 st.env[nm] = fresh_scalar(nm, "f")
             elif all(isinstance(c, VInt) for c in cands):
                 st.env[nm] = fresh_scalar(nm, "i")
@@ -2399,7 +2504,10 @@ class Executor:
         e = st.fork()
         if is_for:
             bind(e, lo)
-        pre_loop = st.fork()          # for old() inside invariants: state before the loop
+        pre_loop = st.fork()          # for at_entry() inside invariants: state before the loop
+        st.loop_pre = dict(st.loop_pre)
+        st.loop_pre[k] = pre_loop
+        e.loop_pre = dict(st.loop_pre)
         for j, inv in enumerate(ls.inv):
             g = self.spec_bool(inv, e)
             self.oblige(e, "inv-init", "%s.inv%d" % (tag, j), g, s, desc=inv)
